@@ -207,3 +207,18 @@ void h_opni_load_save_load(void)
     __CPROVER_assert(y->version == SPEC_VERSION_EFF(x->version) && y->is_drum == x->is_drum && ins_equal(&x->inst, &y->inst), "LSL identity");
     REACH(x->version == 1, "v1"); REACH(x->version == 2, "v2"); REACH(x->version == 0, "v0 in magic2 file");
 }
+
+/* ---------- bank file functions ---------- */
+void h_WOPN_Init(void)
+{
+    uint16_t m = nondet_u16(), p = nondet_u16();
+    WOPNFile *f = WOPN_Init(m, p);
+    REACH(f != NULL && m == 0, "default melodic"); REACH(f != NULL && p == 3, "three percussive");
+}
+void h_LoadBankFromMem(void)
+{
+    void *m; size_t len = nondet_size(); int *err;
+    WOPNFile *f = WOPN_LoadBankFromMem(m, len, err);
+    REACH(f != NULL, "accepted"); REACH(f == NULL, "rejected");
+    REACH(f != NULL && f->version == 1, "v1"); REACH(f != NULL && f->version == 2 && f->banks_count_melodic == 2, "v2 two banks");
+}
